@@ -775,3 +775,59 @@ def droprow_pointer_fixup_rule(chk, cid, prog, p, cfgname):
     if n < 1:
         raise AnalysisBroken('%s: pointer fix-up loop not found' % f.name)
     return n
+
+
+def complex_magnitude_rule(chk, cid, prog, cfgname):
+    """c_abs / c_abs1 / z_abs / z_abs1 measure a complex number; every caller that asks "is this entry zero" or "which entry is largest" (pivot
+    search, equilibration, norms, drop rules) goes through them.  Necessary: the value returned depends on both the real and the imaginary part of
+    the argument.  Decided by a flow-insensitive dependence closure over the locals of the helper: which members of `*z` can reach each return."""
+    from ..run import AnalysisBroken
+    n = 0
+    for fname in ('c_abs', 'c_abs1', 'z_abs', 'z_abs1'):
+        f = prog.func(fname)
+        if f is None:
+            raise AnalysisBroken('%s not found' % fname)
+        chk.saw(unit=f.unit, func=f.unit + ':' + f.name)
+        zid = f.params[0][1]
+        deps = {}
+
+        def parts(e):
+            out = set()
+            for x in e.walk():
+                if x.k == 'Member' and x.c and strip(x.c[0]).k == 'Ref' and strip(x.c[0]).a.get('id') == zid:
+                    out.add(x.a.get('name'))
+                elif x.k == 'Ref' and x.a.get('id') in deps:
+                    out |= deps[x.a['id']]
+            return out
+        for x in f.body.walk():
+            if x.k == 'Var':
+                deps.setdefault(x.a['id'], set())
+        changed = True
+        while changed:
+            changed = False
+            for x in f.body.walk():
+                tgt = rhs = None
+                if x.k == 'Var' and x.c:
+                    tgt, rhs = x.a['id'], x.c[0]
+                elif x.k == 'Assign' and strip(x.c[0]).k == 'Ref':
+                    tgt, rhs = strip(x.c[0]).a.get('id'), x.c[1]
+                if tgt in deps:
+                    new = parts(rhs) | (deps[tgt] if x.k == 'Assign' and x.a['op'] != '=' else set())
+                    if not new <= deps[tgt]:
+                        deps[tgt] |= new
+                        changed = True
+        rets = [x for x in f.body.walk() if x.k == 'Return' and x.c]
+        if not rets:
+            raise AnalysisBroken('%s: no return with a value' % fname)
+        for r in rets:
+            n += 1
+            got = parts(r.c[0])
+            inst = '%s:return@%d-depends-on-both-parts' % (fname, rets.index(r))
+            if {'r', 'i'} <= got:
+                chk.ok(cid, inst, sample='`return %s` depends on z->{%s}' % (pretty(r.c[0])[:30], ','.join(sorted(got))))
+            else:
+                chk.violate(cid, inst, loc(f, r), fname,
+                            '`return %s` depends only on z->{%s}: the magnitude of a complex entry must take both its real and its imaginary part, otherwise an entry '
+                            'with only the other part looks like an exact zero to the pivot search, the equilibration and the drop rules' % (pretty(r.c[0])[:30], ','.join(sorted(got))),
+                            cfgname=cfgname)
+    return n
